@@ -262,10 +262,12 @@ class SymbolGraph(metaclass=SingletonMeta):
         :param type_: The symbol type to look for
         :return: All wrapped instances that refer to an instance of the given type.
         """
+        # a wrapper whose instance died since the last sweep (or dies while this generator is suspended) has no instance
         yield from (
-            instance.instance
+            live_instance
             for cls in [type_] + recursive_subclasses(type_)
             for instance in list(self._class_to_wrapped_instances[cls])
+            if (live_instance := instance.instance) is not None
         )
 
     def get_wrapped_instance(self, instance: Any) -> Optional[WrappedInstance]:
